@@ -374,6 +374,15 @@ func (p *Prog) Implementations(m *types.Func) []*ssa.Function {
 // initialiser and stores a freshly made value (var ErrX = errors.New(...)).
 var sentinels = map[*ssa.Global]bool{}
 
+// Forget drops what is cached for a program.
+func Forget(p *Prog) {
+	for g := range sentinels {
+		if g.Pkg != nil && g.Pkg.Prog == p.SSA {
+			delete(sentinels, g)
+		}
+	}
+}
+
 func computeSentinels(p *Prog) {
 	bad := map[*ssa.Global]bool{}
 	good := map[*ssa.Global]bool{}
